@@ -237,7 +237,7 @@ func runVT(idx int, beh behaviour, seed int64) *caseRec {
 	}
 	atyp := []int{1, 3, 4}[rng.Intn(3)]
 	req := map[int]string{1: "192.0.2.77:8080", 3: "vt-target.example.test:443", 4: "[2001:db8::77]:8443"}[atyp]
-	cc := &cconn{cfinAt: -1, preDoneAt: -1, lastSendAt: -1, addrDoneAt: -1, stallKinds: []string{}}
+	cc := &cconn{cfinAt: -1, preDoneAt: -1, lastSendAt: -1, addrDoneAt: -1, stallKinds: []string{}, tcl: "no"}
 	var primes []*connPlan
 	cc.plan = buildPlan(rng, 1, sc.Hs, sc.Tk, keys[pos], kinds, ntgt, req, atyp, beh.Ov, func(p *connPlan) { primes = append(primes, p) })
 	cc.plan.KeyPos = pos
@@ -278,7 +278,8 @@ func runVT(idx int, beh behaviour, seed int64) *caseRec {
 		s := snap{I: i, A: e.A, NCS: cc.nsent, NTS: cc.ntsent, Cfin: cc.cfin, Tfin: cc.tfin, Trst: cc.trst,
 			ML: len(o.mlog), DL: o.dials, CL: len(o.clog), TL: len(o.tlog), WCS: o.wireCS, WTS: o.wireTS, WTR: o.wireTR, WCR: o.wireCR,
 			CloseAt: o.closeAt, TfinPolite: cc.tfinPolite, PreDoneAt: cc.preDoneAt, LastSendAt: cc.lastSendAt, CfinAt: cc.cfinAt,
-			AddrDoneAt: cc.addrDoneAt, StallKinds: append([]string{}, cc.stallKinds...)}
+			AddrDoneAt: cc.addrDoneAt, StallKinds: append([]string{}, cc.stallKinds...), Tcl: cc.tcl, Crst: cc.crst, WCPL: cc.wcpl,
+			AfterClose: cc.afterClose}
 		b.mu.Unlock()
 		r.Snaps = append(r.Snaps, s)
 		addStep(cc, e, s)
@@ -426,6 +427,10 @@ func runVT(idx int, beh behaviour, seed int64) *caseRec {
 		case "CSend":
 			t := cc.plan.Toks[cc.nsent]
 			cc.nsent++
+			if t.Kind == kData || t.Kind == kAddrPlus {
+				cc.wcpl += int64(len(cc.plan.Payloads[cc.ndataSent]))
+				cc.ndataSent++
+			}
 			n, err := cli.Write(t.Bytes)
 			if err != nil {
 				r.WriteErrs++
@@ -544,6 +549,7 @@ func runVT(idx int, beh behaviour, seed int64) *caseRec {
 	r.Mlog = append(r.Mlog, o.mlog...)
 	r.Dials = o.dials
 	r.Handled = o.handled
+	r.Tcl, r.Crst, r.WCPL, r.AfterClose = cc.tcl, cc.crst, cc.wcpl, cc.afterClose
 	r.DialAddrs = append(r.DialAddrs, o.dialAddrs...)
 	r.AcceptAt, r.CloseAt = o.acceptAt, o.closeAt
 	r.CfinAt, r.PreDoneAt, r.LastSendAt, r.AddrDoneAt = cc.cfinAt, cc.preDoneAt, cc.lastSendAt, cc.addrDoneAt
